@@ -32,6 +32,8 @@ type Part struct {
 	// and run (a package-level variable of the generator's package); "lazy" (Text parts) a snippet.Func
 	// closure that reads a scratch field of the generator which is overwritten right after Render returns.
 	Via string `json:"via,omitempty"`
+	// Bulk: a valid declaration of about Bulk KiB (a generated table), named after Text.
+	Bulk int `json:"bulk,omitempty"`
 }
 
 // Rule says what a scripted generator does for one (package, type).
